@@ -90,7 +90,7 @@ func NewFastHTTPHandler(h http.Handler) fasthttp.RequestHandler {
 			// Buffered, no Flush() nor Hijack().
 			ctx.SetStatusCode(w.status())
 			haveContentType := false
-			for k, vv := range w.Header() {
+			for k, vv := range w.sentHeader() {
 				if k == fasthttp.HeaderContentType {
 					haveContentType = true
 				}
@@ -119,7 +119,7 @@ func NewFastHTTPHandler(h http.Handler) fasthttp.RequestHandler {
 			ctx.SetStatusCode(w.status())
 
 			haveContentType := false
-			for k, vv := range w.Header() {
+			for k, vv := range w.sentHeader() {
 				// No Content-Length when streaming.
 				if k == fasthttp.HeaderContentLength {
 					continue
@@ -204,6 +204,8 @@ type writer struct {
 	statusCode atomic.Int64
 
 	mu           sync.Mutex
+	wroteHeader  bool        // the status code and header fields are committed
+	committed    http.Header // snapshot of h taken when they were committed
 	responseBody []byte
 	bufPool      *[]byte
 
@@ -250,7 +252,42 @@ func (w *writer) WriteHeader(code int) {
 	if code < 100 || code > 999 {
 		panic(fmt.Sprintf("invalid WriteHeader code %v", code))
 	}
-	w.statusCode.CompareAndSwap(0, int64(code))
+	if code >= 100 && code <= 199 && code != http.StatusSwitchingProtocols {
+		// Informational responses are not forwarded. As in net/http they
+		// neither commit the header nor become the final status code.
+		return
+	}
+	w.commit(code)
+}
+
+// commit fixes the status code and the header fields of the response the
+// first time it is called, like net/http does on the first call to WriteHeader
+// (explicit, or implicit through Write and Flush). Later calls are no-ops,
+// and later changes of Header() do not reach the client.
+//
+// code 0 means no explicit status code (see status).
+func (w *writer) commit(code int) {
+	w.mu.Lock()
+	w.commitLocked(code)
+	w.mu.Unlock()
+}
+
+func (w *writer) commitLocked(code int) {
+	if !w.wroteHeader {
+		w.wroteHeader = true
+		w.statusCode.Store(int64(code))
+		w.committed = w.h.Clone()
+	}
+}
+
+// sentHeader returns the header fields to send to the client.
+func (w *writer) sentHeader() http.Header {
+	w.mu.Lock()
+	defer w.mu.Unlock()
+	if w.wroteHeader {
+		return w.committed
+	}
+	return w.h
 }
 
 func (w *writer) Write(p []byte) (int, error) {
@@ -269,6 +306,7 @@ func (w *writer) Write(p []byte) (int, error) {
 	}
 	defer w.mu.Unlock()
 
+	w.commitLocked(0)
 	if w.responseBody == nil {
 		w.bufPool = bufferPool.Get().(*[]byte) //nolint:forcetypeassert
 		w.responseBody = (*w.bufPool)[:0]
@@ -278,6 +316,7 @@ func (w *writer) Write(p []byte) (int, error) {
 }
 
 func (w *writer) Flush() {
+	w.commit(0)
 	w.flushOnce.Do(func() {
 		select {
 		case w.modeCh <- modeFlushed:
